@@ -69,6 +69,15 @@ def chk_int(v, tag_t, enum, trailer):
             out.append(("int-read-consumed", f"reader left {rem.hex()} expected {trailer.hex()}"))
     except Exception as e:
         out.append((f"int-read-exc:{norm_msg(e)}", f"reading {exp.hex()} ({v}) raised {type(e).__name__}: {e}"))
+    # the same value read through a peeked header only (no tag= given): the header carries the tag, universal or not
+    try:
+        rd2 = A.ASN1Reader(exp + trailer)
+        h = rd2.peek_header()
+        got2 = rd2.read_enumerated(int, header=h) if enum else rd2.read_integer(header=h)
+        if got2 != v or rd2.get_remaining_data() != trailer:
+            out.append(("int-read-with-header", f"{'ENUMERATED' if enum else 'INTEGER'} with tag {t_exp} read through header= gave {_show(got2)}"))
+    except Exception as e:
+        out.append((f"int-read-with-header-exc:{'enum' if enum else 'int'}:{'implicit-tag' if tag_t else 'universal-tag'}:{type(e).__name__}", f"read_{'enumerated' if enum else 'integer'}(header=peek_header()) on tag {t_exp} raised {type(e).__name__}: {e}"))
     return out
 
 
